@@ -491,15 +491,8 @@ theorem calcHMatCb_toM (B : Basis K d) (L : Mat K (d * d) (d * d)) :
   rw [Mat.toM_smul]; rfl
 
 theorem calcJMatCb_toM (B : Basis K d) (L : Mat K (d * d) (d * d)) :
-    (calcJMatCb B L).toM = ∑ a, jCoef B L (suc a) (decide (a.val = 0)) • Bm B (suc a) := by
+    (calcJMatCb B L).toM = ∑ a, jCoef B L a (decide (a.val = 0)) • Bm B a := by
   unfold calcJMatCb
-  rw [toM_msum]
-  apply Finset.sum_congr rfl; intro a _
-  rw [Mat.toM_smul]; rfl
-
-theorem calcJMatFixedCb_toM (B : Basis K d) (L : Mat K (d * d) (d * d)) :
-    (calcJMatFixedCb B L).toM = ∑ a, jCoef B L a (decide (a.val = 0)) • Bm B a := by
-  unfold calcJMatFixedCb
   rw [toM_msum]
   apply Finset.sum_congr rfl; intro a _
   rw [Mat.toM_smul]; rfl
